@@ -4,7 +4,7 @@
    while unread bytes remain) over ONE segmentation `chunks` of the stream `concat chunks`; the
    theorems quantify over all segmentations, with no bound on stream length or chunk count. *)
 From OlaBase Require Import Bytes.
-From C10 Require Import Gen Model Lemmas ProofsRecv ProofsUsb.
+From C10 Require Import Gen Model Lemmas ProofsRecv ProofsUsb ProofsRobe ProofsOpc.
 Local Open Scope N_scope.
 
 (* Side obligations: the constants regenerated from the headers are the numbers used by the
@@ -62,6 +62,43 @@ Proof.
 Qed.
 Print Assumptions c10_usbpro_bounds.
 
+(* Robe: the same statement for BaseRobeWidget (header checksum and data checksum included): every
+   partition of every stream delivers exactly the reference framer's messages, no store outside
+   m_recv_buffer, no spinning. *)
+Theorem c10_robe_chunk_free : forall (stream : list N) (chunks : list (list N)),
+  concat chunks = stream ->
+  exists s, feed r_recv r_init chunks = Done s (ref_robe stream).
+Proof. intros stream chunks H. rewrite <- H. exact (robe_chunk_free chunks). Qed.
+Print Assumptions c10_robe_chunk_free.
+
+Theorem c10_robe_bounds : forall chunks s out,
+  feed r_recv r_init chunks = Done s out ->
+  r_st s = R_BODY -> len (r_body s) < r_size s <= 522 /\ ROBE_BUF = 522.
+Proof.
+  intros chunks s out H Hb. split; [|reflexivity].
+  exact (robe_reachable_bounds chunks s out H Hb).
+Qed.
+Print Assumptions c10_robe_bounds.
+
+(* Open Pixel Control (SocketReady after fix 02): for every stream of bytes (< 256) and every
+   partition, the channel callbacks receive exactly the frames of the whole stream, in order — so
+   back-to-back frames in one read are all delivered and a read ending inside the next frame loses
+   nothing; no store or copy outside the (growing) receive buffer. *)
+Theorem c10_opc_chunk_free : forall (stream : list N) (chunks : list (list N)),
+  concat chunks = stream -> bytes_ok stream = true ->
+  exists s, feed o_recv o_init chunks = Done s (ref_opc stream).
+Proof. intros stream chunks H Hb. rewrite <- H in *. exact (opc_chunk_free chunks Hb). Qed.
+Print Assumptions c10_opc_chunk_free.
+
+(* In every reachable state the buffer has room for at least one more byte (so SocketReady always
+   makes progress) and its capacity never exceeds the largest frame, 65535 + 4. *)
+Theorem c10_opc_bounds : forall chunks s out,
+  bytes_ok (concat chunks) = true ->
+  feed o_recv o_init chunks = Done s out ->
+  len (o_data s) < o_cap s /\ o_cap s <= 65539.
+Proof. intros chunks s out Hb H. exact (opc_reachable_bounds chunks s out Hb H). Qed.
+Print Assumptions c10_opc_bounds.
+
 (* the hypotheses are satisfiable / the statements are not vacuous *)
 Example c10_usbpro_example :
   ref_usb [0; 126; 6; 2; 0; 10; 20; 231; 126; 7; 0; 0; 231; 126; 8; 1; 0; 5; 0] = [(6, [10; 20]); (7, [])] /\
@@ -70,4 +107,13 @@ Example c10_usbpro_example :
 Proof. split; vm_compute; reflexivity. Qed.
 Example c10_receive_example :
   receive_call [RBytes 1; RIntr; RBytes 5; RAgain] [1; 2; 3; 4; 5] [9; 9; 9; 9] = RDone 0 4 [1; 2; 3; 4] [5].
+Proof. vm_compute; reflexivity. Qed.
+Example c10_robe_example :
+  feed r_recv r_init [[165; 7; 2]; [0; 174; 1; 2]; [95; 165; 8; 0; 0; 173; 90]] =
+    Done {| r_st := R_PRE; r_type := 8; r_lo := 0; r_hi := 0; r_size := 0; r_crc := 90; r_body := [] |}
+         [(7, [1; 2]); (8, [])].
+Proof. vm_compute; reflexivity. Qed.
+Example c10_opc_example :
+  feed o_recv o_init [[1; 0; 0; 2; 9; 8; 2; 0; 0]; [1; 7; 3]] =
+    Done {| o_data := [3]; o_cap := 516 |} [(256, [9; 8]); (512, [7])].
 Proof. vm_compute; reflexivity. Qed.
